@@ -104,7 +104,42 @@ func parseListMap(p *parser, bp oper.BP, t *token.Token) ast.Expr {
 		rg := pos.Range(t, rb)
 		return ast.Map([]ast.Pair{}, rg)
 	}
-	return p.any("list or map", parseList(t), parseMap(t))
+	return p.any("list or map", parseListOrMap(t))
+}
+
+// parseListOrMap 第一个元素只解析一次, 再根据后面是否是 `:` 决定是 list 还是 map.
+// 之前是先按 list 解析, 失败再回溯按 map 重新解析 (parseList / parseMap), map 的 key 位置每嵌套
+// 一层解析量翻倍 (e.g. [[[1:1]:1]:1]), 很短的输入就能让 parser 卡死
+func parseListOrMap(t *token.Token) func(p *parser) ast.Expr {
+	return func(p *parser) ast.Expr {
+		if p.peek().Kind == token.RIGHT_BRACKET {
+			return parseList(t)(p)
+		}
+		first := p.expr(0)
+		if p.tryEat(token.COLON) == nil {
+			elems := []ast.Expr{first}
+			for p.tryEat(token.COMMA) != nil {
+				if p.peek().Kind == token.RIGHT_BRACKET {
+					break
+				}
+				elems = append(elems, p.expr(0))
+			}
+			rb := p.mustEat(token.RIGHT_BRACKET)
+			return ast.List(elems, pos.Range(t, rb))
+		}
+		pairs := []ast.Pair{{Key: first, Val: p.expr(0)}}
+		for p.tryEat(token.COMMA) != nil {
+			if p.peek().Kind == token.RIGHT_BRACKET {
+				break
+			}
+			k := p.expr(0)
+			p.mustEat(token.COLON)
+			v := p.expr(0)
+			pairs = append(pairs, ast.Pair{Key: k, Val: v})
+		}
+		rb := p.mustEat(token.RIGHT_BRACKET)
+		return ast.Map(pairs, pos.Range(t, rb))
+	}
 }
 
 func parseList(t *token.Token) func(p *parser) ast.Expr {
